@@ -148,6 +148,22 @@ CLAIMED = {
     note="Trusted: Coq kernel + vm_compute; no axioms; hand-written model; harness; sympy is exercised, not modelled. The "
          "homogeneity of the reduced forms (to_qubo etc. with a symbolic penalty) is covered by the correspondence run only.",
     technique="Coq proof (two-run simulation over all branches) + model/implementation correspondence", ref="§5 C16"),
+ "C01": dict(
+    text="Coq theorems about PUBO._reduce_degree (the function behind all eight to_* methods), for every labelled model, "
+         "every target degree >= 2, every pairs hint and every penalty setting: C01_extension (each assignment x of M has "
+         "an extension s over D's variables, ancillas set to the products they stand for, with D(s) = M(x) -- for ANY "
+         "penalty), C01_lower (if the penalty of each reduced term is >= |coefficient| then D(s) >= M(convert_solution(s)) at "
+         "EVERY s, consistent ancillas or not; C01_lower_default: always for the default 1+|v|), C01_minimiser (equal "
+         "minima; every minimiser of D converts to a minimiser of M), C01_degree (every key of D has at most deg labels), "
+         "C01_core (ancillas are numbered from n upwards, each above the two labels it replaces), C01_to_quso / C01_to_puso "
+         "(spin forms are the boolean reduced form under 0<->+1, 1<->-1), C01_spin_extension / C01_spin_lower (PUSO/PCSO "
+         "through _create_pubo with the spin model's own mapping). Proved by induction over the fuel of the per-term loop "
+         "and over the term list, with the step inequality C01_step. Tied to /repo by exact comparison of the produced "
+         "models (terms, type, labels) for random models, degrees, hints, penalties, plus an enumeration oracle.",
+    note="Trusted: Coq kernel + vm_compute; no axioms; hand-written model of _pubo.py/_puso.py reduction code; harness. "
+         "The model's per-term loop runs on fuel = len(key) (each step shortens the key by one); fuel exhaustion returns an "
+         "error value that the correspondence never observes. Callable penalties are modelled by three fixed functions.",
+    technique="Coq proof (induction over the reduction loop; consistent-extension construction) + model/implementation correspondence", ref="§5 C01"),
 }
 NA_REASON = "check not built yet in this round; see DESIGN.md §8 (order of work)"
 
